@@ -152,6 +152,42 @@ fn do_read<T: Readable>(tx: &T, ks: &Keyspace, conc: &Concretizer, cell: (u64, u
             };
             Ok(json!(p.iter().map(|(k, v)| json!([k, v])).collect::<Vec<_>>()))
         }
+        "prefix" => {
+            // keys that start with key(arg): through prefix() and through the equivalent range
+            let a = conc.key(arg);
+            let p = if variant % 2 == 0 {
+                collect(conc, cell, tx.prefix(ks, &a))?
+            } else {
+                collect(conc, cell, tx.range::<fjall::Slice, _>(ks, fjall::util::prefix_to_range(&a)))?
+            };
+            Ok(json!(p.iter().map(|(k, v)| json!([k, v])).collect::<Vec<_>>()))
+        }
+        "range_ue" | "range_eu" | "range_ie" | "range_ei" | "range_ee" => {
+            // the remaining shapes of (start bound, end bound); prefix() is the (Included, Excluded) one
+            use std::ops::Bound::{Excluded, Included, Unbounded};
+            let a = conc.key(arg);
+            let p = match m {
+                "range_ue" => {
+                    if variant % 2 == 0 {
+                        collect(conc, cell, tx.range::<Vec<u8>, _>(ks, ..a))?
+                    } else {
+                        collect(conc, cell, tx.range::<Vec<u8>, _>(ks, (Unbounded, Excluded(a))))?
+                    }
+                }
+                "range_eu" => collect(conc, cell, tx.range::<Vec<u8>, _>(ks, (Excluded(a), Unbounded)))?,
+                "range_ie" => {
+                    let b = conc.key(arg + 1);
+                    if variant % 2 == 0 {
+                        collect(conc, cell, tx.range::<Vec<u8>, _>(ks, a..b))?
+                    } else {
+                        collect(conc, cell, tx.range::<Vec<u8>, _>(ks, (Included(a), Excluded(b))))?
+                    }
+                }
+                "range_ei" => collect(conc, cell, tx.range::<Vec<u8>, _>(ks, (Excluded(a), Included(conc.key(arg + 1)))))?,
+                _ => collect(conc, cell, tx.range::<Vec<u8>, _>(ks, (Excluded(a), Excluded(conc.key(arg + 2)))))?,
+            };
+            Ok(json!(p.iter().map(|(k, v)| json!([k, v])).collect::<Vec<_>>()))
+        }
         _ => Err(format!("unknown read method {m}")),
     }
 }
@@ -196,7 +232,9 @@ pub fn run_tx_replay(args: &TxArgs) -> Outcome {
         out.distinct.insert(hash_str(&sig));
         out.behaviours += 1;
         let variant = Variant::from_index(args.seed.wrapping_add(bi as u64) % 16, &[]);
-        let conc = Concretizer::new(variant.key_scheme, variant.val_scheme, args.seed ^ bi as u64);
+        // the specification's prefix relation (PfxPairs) is the one of key scheme 0
+        let uses_prefix = sig.contains("\"prefix\"");
+        let conc = Concretizer::new(if uses_prefix { 0 } else { variant.key_scheme }, variant.val_scheme, args.seed ^ bi as u64);
         let dir = fresh_dir(&root, &format!("t{bi}"));
         let mut viol: Option<(usize, String)> = None;
 
